@@ -144,6 +144,8 @@ def plan(tier, seed):
     out += [{'kind': 'client', 'seed': seed, 'idx': i} for i in range(m)]
     # real circusd, real ZeroMQ: requests of every size up to a few MiB get exactly one reply each
     out += [{'kind': 'live-sizes', 'seed': seed, 'idx': i} for i in range(2 if tier == 'quick' else 10)]
+    # a request whose synchronous part runs a hook that calls sys.exit(): still answered (once), next request served
+    out += [{'kind': 'sysexit-hook', 'seed': seed, 'idx': i} for i in range(4 if tier == 'quick' else 24)]
     return out
 
 
@@ -210,8 +212,51 @@ def live_sizes(spec, res):
         d.cleanup()
 
 
+def sysexit_hook(spec, res):
+    rnd = rng_for(spec['seed'], 'C06-sysexit', spec['idx'])
+    hookname = ['before_start', 'before_spawn', 'after_spawn', 'after_start'][spec['idx'] % 4]
+    h = {'watchers': [{'name': 'a', 'numprocesses': 1, 'graceful_timeout': 0.1},
+                      {'name': 'x', 'numprocesses': 1, 'autostart': False, 'graceful_timeout': 0.1,
+                       'hooks': {hookname: ['exit', False]}}]}
+    w = simhist.new_world(h)
+    nv = len(res.viol)
+
+    @gen.coroutine
+    def go():
+        yield simhist.boot(w, h)
+        yield w.settle(30)
+        cmd = rnd.choice(['start', 'restart', 'reload'])
+        waiting = rnd.random() < .5
+        n0 = len(w.stream.frames)
+        mid = w.req(cmd, name='x', waiting=waiting)
+        yield w.settle(60)
+        mine = [b for _, _, _, b in w.replies() if isinstance(b, dict) and b.get('id') == mid]
+        res.obs['requests_running_a_hook_that_calls_sys_exit'] += 1
+        if w.sent[mid].get('escaped') or len(mine) != 1:
+            res.violation('C06/reply-count[hook-calls-sys.exit]:%d-instead-of-1' % len(mine),
+                          '%s x (waiting=%s) with a %s hook that calls sys.exit(): %d replies, exception out of '
+                          'handle_message: %s' % (cmd, waiting, hookname, len(mine), w.sent[mid].get('escaped')))
+            return
+        pr = yield w.call('numwatchers')
+        if not isinstance(pr, dict) or pr.get('status') != 'ok':
+            res.violation('C06/next-request-not-served[hook-calls-sys.exit]', 'after it numwatchers answered %s' % str(pr)[:100])
+        res.nontrivial(repr(('sysexit', hookname, cmd, waiting, mine[0].get('status'))))
+    try:
+        w.run(go)
+        if w.daemon_exited:
+            res.obs['daemon_left_through_sys_exit_in_a_loop_callback(not judged)'] += 1
+        for v in res.viol[nv:]:
+            v['spec'] = dict(spec)
+    finally:
+        w.close()
+    res.sample = {'case': 'hook calls sys.exit()', 'hook': hookname}
+
+
 def run_case(spec):
     res = CaseResult()
+    if spec['kind'] == 'sysexit-hook':
+        sysexit_hook(spec, res)
+        return res
     if spec['kind'] == 'live-sizes':
         live_sizes(spec, res)
         for v in res.viol:
